@@ -62,8 +62,8 @@ CHECKS = {
                 note='trusted: MIR dump, IndexSet library model (element equality runs the crate code), ids of 1..3 printable bytes; actions/conditions opaque',
                 ref='DESIGN.md §4 C13'),
     'C16': dict(engine='mirsym', technique=MIRSYM,
-                text='VersionHistory::{select_path, versioning_decision_for, stable_endpoint_for} executed from MIR on symbolic version histories (<= 2 unstable, <= 3 stable paths, optional deprecated/removed, all 15 versions) and symbolic lists of supported versions; z3 decides the selection against the oracle of the property statement; replay through Metadata::make_endpoint_url',
-                note='partial claim (DESIGN §4 C16): only path selection; the macro-generated HTTP conversions, URL percent-encoding and XMatrix are outside; tracing modelled as disabled',
+                text='VersionHistory::{select_path, versioning_decision_for, stable_endpoint_for} executed from MIR on symbolic version histories (<= 2 unstable, <= 3 stable paths, optional deprecated/removed, all 15 versions) and symbolic lists of supported versions; z3 decides the selection against the oracle of the property statement; replay through Metadata::make_endpoint_url; (Q) http_headers::quote_ascii_string_if_required, the encoder of every XMatrix / Content-Disposition parameter value, executed from MIR on every printable-ASCII text <= 4 bytes (6 thorough): itself iff a non-empty RFC 9110 token, otherwise the unique quoted-string with exactly backslash and double quote escaped',
+                note='partial claim (DESIGN §4 C16): path selection and the header-parameter quoting kernel; the macro-generated HTTP conversions, URL percent-encoding, the Display / parse of XMatrix around the kernel (http-auth) are outside; tracing modelled as disabled',
                 ref='DESIGN.md §4 C16'),
     'C17': dict(engine='mirsym', also_kani=True, technique='symbolic execution of rustc MIR + SMT (z3) for the string / byte scanners; Kani/CBMC for the DER rewrite; bounded; native replay',
                 text='no-panic for the ruma-owned scanners of untrusted input: mxc_uri / key_id validators (every UTF-8 string <= 300 bytes), MatrixId::parse_with_sigil (<= 12 bytes), ContentDisposition::try_from(&[u8]) (every byte string <= 4 bytes quick / 5 thorough), push word matching on UTF-8 text with multi-byte characters (value <= 6, literal pattern <= 4 bytes; 7 / 4 thorough), the ring-compat PKCS#8 rewrite of Ed25519KeyPair::from_der (MIR: every byte string <= 300 bytes, so the one-byte DER length arithmetic is inside the bound; Kani on the compiled code: <= 8 bytes); ruleset edits are decided by C13',
